@@ -921,4 +921,32 @@ def msgChase (cache : List Hop) (el : Nat) (cd : Bool) (ids : List Nat) : Bool Ã
   let segs := ids.filterMap (cache[Â·]?)
   (segs.foldl (fun acc h => acc && h.ad) true && !cd, segs.map (fun h => (h.ttl * 1000 - el) / 1000))
 
+/-! ### which proof a cut serves -/
+
+/-- `nxDomainCutEntry.serveWireInto` / `serveCutHitFromWire`: the full (signed) template
+for a DO client and for an explicit RRSIG question, the DNSSEC-stripped one otherwise. -/
+def cutWireFull (clientDO : Bool) (qtype : Nat) : Bool := clientDO || qtype == 46
+
+/-- `nxDomainCutEntry.response` then `edns.WriteMsg`: `ClearDNSSEC` runs for a DO=0
+client â€” and leaves an explicit RRSIG question alone. -/
+def cutMsgFull (clientDO : Bool) (qtype : Nat) : Bool :=
+  let strippedByResponse := !clientDO && qtype != 46
+  let strippedByEdns := !clientDO && qtype != 46      -- dnsutil.ClearDNSSEC's own RRSIG exemption
+  !(strippedByResponse || strippedByEdns)
+
+/-! ### entry-limiter tokens across the inline pass and the worker replay -/
+
+/-- Tokens one client question costs when it arrives on the inline pass: what the
+byte pass spent, plus â€” when it declined and the worker replays the query through the
+decoded body, which cannot see the inline pass's `spent` memo â€” the decoded body's own
+charge (one token whenever the entry has a limiter). -/
+def inlineReplayTokens (s : ServeFacts) : Nat :=
+  let st := serveHitFromWire s
+  match st.out with
+  | .decline => st.tokens + (if s.limited then 1 else 0)
+  | _ => st.tokens
+
+/-- Tokens the same question costs on the decoded ingress (`handleCacheHit`). -/
+def decodedIngressTokens (s : ServeFacts) : Nat := if s.limited && s.limiterAllows then 1 else 0
+
 end SdnsVerif.Model.WirePath
